@@ -118,6 +118,8 @@ class Ctx:
             self.faults["stream_executions"] = self.faults.get("stream_executions", 0) + 1
             if not ex["stream"].get("seekable", True):
                 self.faults["nonseekable_executions"] = self.faults.get("nonseekable_executions", 0) + 1
+        if ex.get("keep_outputs"):
+            self.faults["reused_output_path_executions"] = self.faults.get("reused_output_path_executions", 0) + 1
         if ex.get("stale"):
             self.faults["stale_output_executions"] = self.faults.get("stale_output_executions", 0) + 1
         if ex.get("prelude"):
